@@ -361,10 +361,31 @@ pub fn select(s: &S) -> SelectStatement {
                 q.join_lateral(jointype(&l[0]), select(&l[1]), id(&l[2]), conds::cond_or_expr(&l[3]));
             }
             "andwhere" => {
-                if exprs::shash(c) % 2 == 0 {
-                    q.and_where(expr(&l[0]));
-                } else {
-                    q.and_where_option(Some(expr(&l[0])));
+                // also through the closure-taking helpers of SelectStatement: conditions (both branches; the branch
+                // not taken must leave no trace), apply_if (Some: applied; None: not), apply
+                match exprs::shash(c) % 6 {
+                    0 => {
+                        q.and_where(expr(&l[0]));
+                    }
+                    1 => {
+                        q.and_where_option(Some(expr(&l[0])));
+                    }
+                    2 => {
+                        let e = expr(&l[0]);
+                        q.conditions(true, |x| { x.and_where(e); }, |x| { x.and_where(Expr::val(0).into()); });
+                    }
+                    3 => {
+                        let e = expr(&l[0]);
+                        q.conditions(false, |x| { x.and_where(Expr::val(0).into()); x.limit(0); }, |x| { x.and_where(e); });
+                    }
+                    4 => {
+                        q.apply_if(Some(expr(&l[0])), |x, e| { x.and_where(e); });
+                        q.apply_if(None::<SimpleExpr>, |x, e| { x.and_where(e); x.limit(0); });
+                    }
+                    _ => {
+                        let e = expr(&l[0]);
+                        q.apply(|x| { x.and_where(e); });
+                    }
                 }
             }
             "condwhere" => {
